@@ -9,7 +9,7 @@
 (* properties are asserted is selected by environment variables P_Cxx=1.      *)
 (* Mismatches are printed as machine-readable MISMATCH lines; acceptance is  *)
 (* "all lines consumed" (POSTCONDITION) and "no MISMATCH line".              *)
-EXTENDS Props, Json, IOUtils, TLCExt
+EXTENDS Props, Recognizer, Utf8, Json, IOUtils, TLCExt
 
 Rec == ndJsonDeserialize(IOEnv.TRACE)
 On(id) == IOEnv["P_" \o id] = "1"
@@ -17,8 +17,10 @@ On(id) == IOEnv["P_" \o id] = "1"
 VARIABLES l,      \* number of trace lines consumed
           st,     \* screen state after line l (the implementation's, normalised); NoScreen if none
           need,   \* C17 history: rows whose appearance changed since the last ClearDirty
-          cnt     \* per-property counters of judged lines (evidence)
-vars == <<l, st, need, cnt>>
+          cnt,    \* per-property counters of judged lines (evidence)
+          rs,     \* recogniser / decoder state carried by the specification (not observable in the code)
+          grp     \* first end-of-history state of the current comparison group (C02, C10)
+vars == <<l, st, need, cnt, rs, grp>>
 
 NoScreen == [L |-> 0]
 HasScreen(s) == s.L > 0
@@ -35,7 +37,7 @@ NormState(p, prev) ==
       saves |-> p.saves, savedcols |-> p.savedcols, dirty |-> SeqToSet(p.dirty), sc |-> 0]
 
 PropIds == {"C04","C05","C06","C07","C08","C10","C12","C13","C14","C15","C16","C18","C19","C20","ALL"}
-CntKeys == PropIds \cup {"C01","C09","C17","lines","ops","skipped_illformed","panics"}
+CntKeys == PropIds \cup {"C01","C02","C03","C09","C11","C17","lines","ops","feeds","ends","skipped_illformed","panics"}
 Inc(c, keys) == [k \in DOMAIN c |-> IF k \in keys THEN c[k] + 1 ELSE c[k]]
 
 Report(kind, id, line, r, bad, extra) ==
@@ -86,11 +88,81 @@ JudgeOp(r, line) ==
         => Report("mismatch", "C17", line, r, Bad_C17(need, st, need1, post),
                   [need |-> SetToSeq(need1), dirty |-> SetToSeq(post.dirty), L |-> post.L])
 
+-----------------------------------------------------------------------------
+(* feed lines: what the listener received during one feed() call             *)
+RsInit(utf8) == [rec |-> Ground, pend |-> <<>>, utf8 |-> utf8, start |-> TRUE, flushAlt |-> FALSE]
+PlainEv(e) == [op |-> e.op, p |-> e.p, s |-> e.s, pr |-> e.pr]
+TextOf(evs) == FoldLeft(LAMBDA acc, e : IF e.op = "draw" THEN acc \o e.s ELSE acc, <<>>, evs)
+Only(evs, ops) == SelectSeq(evs, LAMBDA e : e.op \in ops)
+InOsc(rec) == rec.st \in {"osc", "oscp", "oscesc"}
+
+ReportFeed(id, line, r, exp, obs) ==
+  PrintT(<<"MISMATCH", ToJson([kind |-> "events", prop |-> id, line |-> line, op |-> r.ev.op, p |-> <<>>,
+                               pr |-> FALSE, src |-> r.ev.port, bad |-> <<"events">>,
+                               info |-> [exp |-> exp, obs |-> obs]])>>)
+
+JudgeFeed(r, line) ==
+  LET bytes  == r.ev.port = "bytes"
+      dec    == IF bytes /\ rs.utf8 THEN DecodeCall(rs.pend, r.ev.wb)
+                ELSE [out |-> IF bytes THEN r.ev.wb ELSE r.ev.ws, pend |-> <<>>]
+      \* freedom points of C11: a byte-order mark at the very start of the stream may be
+      \* dropped; a tail pending at a mode switch may have been flushed as one U+FFFD
+      bom    == bytes /\ rs.utf8 /\ rs.start /\ dec.out # <<>> /\ dec.out[1] = 65279
+      rf     == RFeed(rs.rec, dec.out, rs.utf8)
+      rfNoBom == RFeed(rs.rec, Tail(dec.out), rs.utf8)
+      rfFlush == RFeed(rs.rec, <<REPL>> \o dec.out, rs.utf8)
+      obs    == NormEvents([i \in 1..Len(r.out) |-> PlainEv(r.out[i])])
+      cands  == {NormEvents(rf.evs)} \cup (IF bom THEN {NormEvents(rfNoBom.evs)} ELSE {})
+                \cup (IF rs.flushAlt THEN {NormEvents(rfFlush.evs)} ELSE {})
+      exp    == NormEvents(rf.evs)
+      oscLine == InOsc(rs.rec) \/ InOsc(rf.r) \/ Only(exp, {"title", "icon"}) # <<>> \/ Only(obs, {"title", "icon"}) # <<>>
+  IN
+  /\ rs' = [rs EXCEPT !.rec = rf.r, !.pend = dec.pend, !.flushAlt = FALSE,
+                       !.start = rs.start /\ dec.out = <<>>]
+  /\ UNCHANGED <<st, need>>
+  /\ cnt' = Inc(cnt, {"lines", "feeds"} \cup (IF r.panic THEN {"panics"} ELSE {})
+                     \cup (IF On("C01") THEN {"C01"} ELSE {})
+                     \cup (IF On("C03") /\ ~bytes THEN {"C03"} ELSE {})
+                     \cup (IF On("C11") /\ bytes THEN {"C11"} ELSE {})
+                     \cup (IF On("C19") /\ oscLine THEN {"C19"} ELSE {})
+                     \cup (IF On("C20") /\ ~bytes THEN {"C20"} ELSE {}))
+  /\ (On("C01") /\ r.panic) =>
+        PrintT(<<"MISMATCH", ToJson([kind |-> "panic", prop |-> "C01", line |-> line, op |-> r.ev.op, p |-> <<>>,
+                                     pr |-> FALSE, src |-> r.ev.port, bad |-> <<"panic">>, info |-> [msg |-> r.msg]])>>)
+  \* C03: the ordered listener events are those of the documented grammar
+  /\ (On("C03") /\ ~r.panic /\ ~bytes /\ obs \notin cands) => ReportFeed("C03", line, r, exp, obs)
+  \* C11: the text delivered is the streaming decoding of the bytes
+  /\ (On("C11") /\ ~r.panic /\ bytes /\ TextOf(obs) \notin { TextOf(c) : c \in cands })
+        => ReportFeed("C11", line, r, TextOf(exp), TextOf(obs))
+  \* C19: title / icon events carry exactly the payload
+  /\ (On("C19") /\ ~r.panic /\ oscLine /\ obs \notin cands) => ReportFeed("C19", line, r, exp, obs)
+  \* C20 (recogniser part): shifts and designators are delivered in 8-bit mode only
+  /\ (On("C20") /\ ~r.panic /\ ~bytes
+        /\ Only(obs, {"so", "si", "charset"}) \notin { Only(c, {"so", "si", "charset"}) : c \in cands })
+        => ReportFeed("C20", line, r, Only(exp, {"so", "si", "charset"}), Only(obs, {"so", "si", "charset"}))
+
+\* end of a history: histories of one comparison group (same sid) must end in the same state
+JudgeEnd(r, line) ==
+  LET post == NormState(r.post, NoScreen)
+      have == grp.sid = r.sid /\ r.sid # ""
+      bad  == IF have /\ ~r.dead /\ ~grp.dead /\ r.scr THEN DiffFields(grp.st, post, AllFields) ELSE {}
+  IN
+  /\ grp' = IF have \/ r.sid = "" THEN grp ELSE [sid |-> r.sid, st |-> IF r.scr THEN post ELSE NoScreen, dead |-> r.dead, id |-> r.id]
+  /\ UNCHANGED <<st, need, rs>>
+  /\ cnt' = Inc(cnt, {"lines", "ends"} \cup (IF have /\ r.cmp # "" /\ On(r.cmp) THEN {r.cmp} ELSE {}))
+  /\ (have /\ r.cmp # "" /\ On(r.cmp) /\ bad # {}) =>
+        PrintT(<<"MISMATCH", ToJson([kind |-> "diverge", prop |-> r.cmp, line |-> line, op |-> "end", p |-> <<>>,
+                                     pr |-> FALSE, src |-> r.id, bad |-> SetToSeq(bad),
+                                     info |-> [first |-> grp.id, rows |-> SetToSeq(DiffRows(grp.st, post)),
+                                               ax |-> grp.st.x, ay |-> grp.st.y, bx |-> post.x, by |-> post.y]])>>)
+
 Init ==
   /\ l = 0
   /\ st = NoScreen
   /\ need = {}
   /\ cnt = [k \in CntKeys |-> 0]
+  /\ rs = RsInit(TRUE)
+  /\ grp = [sid |-> "", st |-> NoScreen, dead |-> FALSE, id |-> ""]
 
 Step ==
   /\ l < Len(Rec)
@@ -99,13 +171,23 @@ Step ==
      CASE r.k = "new" ->
             /\ st' = IF r.scr THEN NormState(r.post, NoScreen) ELSE NoScreen
             /\ need' = {}
+            /\ rs' = RsInit(r.utf8)
+            /\ UNCHANGED grp
             /\ cnt' = Inc(cnt, {"lines"})
             /\ (On("C09") /\ r.scr /\ ~WellFormed(NormState(r.post, NoScreen), r.post.cols))
                  => PrintT(<<"MISMATCH", ToJson([kind |-> "illformed", prop |-> "C09", line |-> l + 1,
                                                  op |-> "new", p |-> <<r.L, r.C>>, pr |-> FALSE, src |-> "api",
                                                  bad |-> <<"new">>, info |-> <<>>])>>)
-       [] r.k = "op" -> JudgeOp(r, l + 1)
-       [] OTHER -> /\ UNCHANGED <<st, need>>
+       [] r.k = "op" -> JudgeOp(r, l + 1) /\ UNCHANGED <<rs, grp>>
+       [] r.k = "feed" -> JudgeFeed(r, l + 1) /\ UNCHANGED grp
+       [] r.k = "end" -> JudgeEnd(r, l + 1)
+       [] r.k = "utf8" ->
+            \* mode switch: a pending incomplete sequence is discarded (or flushed: freedom point)
+            /\ rs' = [rs EXCEPT !.utf8 = r.ev.p[1] = 1, !.pend = <<>>,
+                                 !.flushAlt = (rs.pend # <<>>) \/ rs.flushAlt]
+            /\ UNCHANGED <<st, need, grp>>
+            /\ cnt' = Inc(cnt, {"lines"})
+       [] OTHER -> /\ UNCHANGED <<st, need, rs, grp>>
                    /\ cnt' = Inc(cnt, {"lines"})
   /\ (l + 1 = Len(Rec)) => PrintT(<<"SUMMARY", ToJson(cnt')>>)
 
